@@ -126,13 +126,15 @@ func tokenSoup(r *rand.Rand) string {
 }
 
 func hostileText(r *rand.Rand) string {
-	switch r.Intn(6) {
+	switch r.Intn(7) {
 	case 0:
 		return randBytes(r)
 	case 1, 2:
 		return mutateBytes(r, pick(r, stmtPool))
 	case 3:
 		return mutateBytes(r, randExprText(r, 0, r.Intn(8)))
+	case 4:
+		return structuredHostile(r)
 	default:
 		return tokenSoup(r)
 	}
